@@ -11,6 +11,8 @@ Inductive mcx :=
 | MConst (v : Z)
 | MAdd (a b : mcx)
 | MSub (a b : mcx)
+| MTarget (family kind : nat) (sub : mcx)   (* TargetExprAArch64 (family 0: elf name "" 0, :got: 1, :lo12: 2, :got_lo12: 3) /
+                                               TargetExprMips (family 1: GOT 1, HI 2, LO 3, PCREL_HI16 4, PCREL_LO16 5, GOT_CALL 6); other kinds 9 *)
 | MOther.
 Record fixup := mk_fixup { fx_off : Z; fx_size : Z; fx_pcrel : bool; fx_val : mcx }.
 
@@ -134,8 +136,8 @@ Definition ref_attrs (t : atarget) (variant : nat) (y : asym) (is_branch : bool)
   else if t_pie t && (match sy_ref y with RProxy _ => true | _ => false end) && is_branch then Ok [PLT]
   else Ok [].
 
-(* _mcexpr_to_symbolic_operand (x86: no target-specific wrappers) *)
-Definition to_sx (t : atarget) (s : astate) (e : mcx) (is_branch : bool) : result (sx * asym * astate) :=
+(* _mcexpr_to_symbolic_operand, below the target-specific wrapper *)
+Definition to_sx_plain (t : atarget) (s : astate) (e : mcx) (is_branch : bool) : result (sx * asym * astate) :=
   match e with
   | MAdd (MSym n v) (MConst c) =>
       do '(y, s) <- resolve_sym t s n; do at_ <- ref_attrs t v y is_branch; Ok (SConst c (sy_id y) at_, y, s)
@@ -147,6 +149,39 @@ Definition to_sx (t : atarget) (s : astate) (e : mcx) (is_branch : bool) : resul
   | MSym n v =>
       do '(y, s) <- resolve_sym t s n; do at_ <- ref_attrs t v y is_branch; Ok (SConst 0 (sy_id y) at_, y, s)
   | _ => Err UnsupportedErr
+  end.
+
+(* attributes (harness numbering: PLT 1, GOT 2, LO12 3, HI 4, LO 5, PCREL 6) that a target-specific wrapper stands for *)
+Definition A_GOT := 2%nat. Definition A_LO12 := 3%nat. Definition A_HI := 4%nat. Definition A_LO := 5%nat. Definition A_PCREL := 6%nat.
+Definition target_attrs (family kind : nat) : option (list nat) :=
+  match family, kind with
+  | 0%nat, 0%nat => Some []
+  | 0%nat, 1%nat => Some [A_GOT]
+  | 0%nat, 2%nat => Some [A_LO12]
+  | 0%nat, 3%nat => Some [A_GOT; A_LO12]
+  | 1%nat, 1%nat => Some [A_GOT]
+  | 1%nat, 2%nat => Some [A_HI]
+  | 1%nat, 3%nat => Some [A_LO]
+  | 1%nat, 4%nat => Some [A_PCREL; A_HI]
+  | 1%nat, 5%nat => Some [A_PCREL; A_LO]
+  | 1%nat, 6%nat => Some [A_GOT]
+  | _, _ => None
+  end.
+Definition add_attrs (extra : list nat) (e : sx) : sx :=
+  match e with
+  | SConst c y at_ => SConst c y (extra ++ filter (fun a => negb (nmem a extra)) at_)
+  | SAddr a b => SAddr a b
+  end.
+(* _mcexpr_to_symbolic_operand: the wrapper's attributes are added to what the wrapped expression gives; an unknown wrapper is refused
+   before any symbol is resolved *)
+Definition to_sx (t : atarget) (s : astate) (e : mcx) (is_branch : bool) : result (sx * asym * astate) :=
+  match e with
+  | MTarget family kind sub =>
+      match target_attrs family kind with
+      | None => Err UnsupportedErr
+      | Some extra => do '(r, y, s') <- to_sx_plain t s sub is_branch; Ok (add_attrs extra r, y, s')
+      end
+  | _ => to_sx_plain t s e is_branch
   end.
 
 (* _fixup_to_symbolic_operand: the PC-relative adjustment LLVM adds is unwrapped *)
@@ -192,7 +227,7 @@ Definition step (t : atarget) (suffix : bool) (s : astate) (e : ev) : result ast
   | EInsn len ret call branch cond indirect fx =>
       do x0 <- cur_sect s;
       do s <- fold_left (fun acc f => do s <- acc;
-                                       do '(e, ig, s) <- to_sx t s (fixup_expr f len) (call || branch);
+                                       do '(e, ig, s) <- to_sx t s (fixup_expr f len) ((call || branch) && negb indirect);
                                        add_symex s (as_len x0 + fx_off f) e (fx_size f))
                         fx (Ok s);
       do s <- append_data s len;
